@@ -658,6 +658,10 @@ type docSpec struct {
 type fracSpec struct {
 	Bulks  [][]docSpec `json:"bulks"`
 	Sealed bool        `json:"sealed"`
+	// Dense > 0: additionally Dense documents with MIDs ct-DenseSpread+i (i = 0..Dense-1), ingested in bulks of 5000.
+	// With Dense > consts.LIDBlockCap the posting list of the token service:c14 spans several LID blocks.
+	Dense       int   `json:"dense,omitempty"`
+	DenseSpread int64 `json:"dense_spread,omitempty"`
 }
 
 type scenario struct {
@@ -676,6 +680,8 @@ type realFrac struct {
 	ct     uint64
 	bulks  [][]realDoc
 	sealed bool
+	dense  int
+	base   uint64 // MID of the oldest dense document
 }
 
 type fakeStream struct {
@@ -772,14 +778,32 @@ func childMain(path string) {
 	for k, fs := range sc.Fracs {
 		act := st.fm.Active()
 		rf := realFrac{name: act.Info().Name(), ct: act.Info().CreationTime}
+		var specBulks [][]uint64 // absolute MIDs per bulk
 		for _, b := range fs.Bulks {
-			dp := frac.NewDocProvider()
-			var rb []realDoc
+			var mids []uint64
 			for _, d := range b {
 				mid := uint64(int64(rf.ct) + d.Off)
 				if d.Abs != 0 {
 					mid = d.Abs
 				}
+				mids = append(mids, mid)
+			}
+			specBulks = append(specBulks, mids)
+		}
+		if fs.Dense > 0 {
+			rf.dense, rf.base = fs.Dense, uint64(int64(rf.ct)-fs.DenseSpread)
+			for i := 0; i < fs.Dense; i += 5000 {
+				var mids []uint64
+				for j := i; j < min(i+5000, fs.Dense); j++ {
+					mids = append(mids, rf.base+uint64(j))
+				}
+				specBulks = append(specBulks, mids)
+			}
+		}
+		for _, mids := range specBulks {
+			dp := frac.NewDocProvider()
+			var rb []realDoc
+			for _, mid := range mids {
 				dp.Append(docBody(mid, rid), nil, seq.ID{MID: seq.MID(mid), RID: seq.RID(rid)}, seq.Tokens("_all_:", "service:c14"))
 				rb = append(rb, realDoc{mid, rid})
 				rid++
@@ -808,10 +832,15 @@ func childMain(path string) {
 	pset := map[uint64]bool{0: true, two63 - 1: true, maxU64: true}
 	for _, f := range fracs {
 		pset[f.ct], pset[f.ct-86_400_000], pset[f.ct-86_400_001], pset[f.ct-600_000] = true, true, true, true
+		nth := 0
 		for _, b := range f.bulks {
 			for _, d := range b {
 				all = append(all, d)
 				owner[d] = f.name
+				nth++
+				if f.dense > 0 && nth > 40 && nth%9973 != 0 { // a dense fraction contributes only a sample of probes
+					continue
+				}
 				pset[d.mid], pset[d.mid+1], pset[d.mid-1] = true, true, true
 				pset[d.mid/60_000*60_000], pset[d.mid/60_000*60_000+59_999] = true, true
 			}
@@ -866,6 +895,81 @@ func childMain(path string) {
 			fmt.Println(fracLine(f, stage, fr, pick(14)))
 		}
 		// searches
+		fracIdx := map[string]int{}
+		for k, f := range fracs {
+			fracIdx[f.name] = k
+		}
+		clip5 := func(xs []string) string {
+			if len(xs) > 5 {
+				xs = xs[:5]
+			}
+			return vh.JoinStrs(xs, ",")
+		}
+		doSearch := func(label string, qf, qt uint64, order pb.Order) {
+			resp, err := st.g.Search(ctx, &pb.SearchRequest{Query: "service:c14", From: int64(qf), To: int64(qt), Size: 200000, WithTotal: true, Order: order})
+			var want []realDoc
+			for _, d := range all {
+				if qf <= d.mid && d.mid <= qt {
+					want = append(want, d)
+				}
+			}
+			got := map[realDoc]bool{}
+			status := "ok"
+			if err != nil {
+				status = "error"
+			} else if resp.Code != pb.SearchErrorCode_NO_ERROR {
+				status = "code"
+			} else {
+				for _, s := range resp.IdSources {
+					got[realDoc{s.Id.Mid, s.Id.Rid}] = true
+				}
+			}
+			// which fractions did FilterInRange keep?
+			kept := ""
+			for _, f := range fracs {
+				if fr, ok := m[f.name]; ok {
+					kept += string(cell(func() bool { return fr.IsIntersecting(seq.MID(qf), seq.MID(qt)) }))
+				} else {
+					kept += "-"
+				}
+			}
+			var missing, extra []string
+			lost := "none"
+			for _, d := range want {
+				if !got[d] {
+					missing = append(missing, fmt.Sprintf("%d.%d", d.mid, d.rid))
+					if k, ok := fracIdx[owner[d]]; ok && kept[k] == '0' {
+						lost = "pruned"
+					} else if lost == "none" {
+						lost = "kept"
+					}
+				}
+				delete(got, d)
+			}
+			for d := range got {
+				extra = append(extra, fmt.Sprintf("%d.%d", d.mid, d.rid))
+			}
+			sort.Strings(extra)
+			fmt.Printf("S\t%s\t%s\t%d\t%d\t%s\t%s\twant=%d\tmissing=%s\textra=%s\t[%s,%s]\t%d\t%d\t%s\t%s\n", stage, label, qf, qt, status, kept, len(want),
+				clip5(missing), clip5(extra), rel(qf), rel(qt), len(missing), len(extra), lost, order.String())
+		}
+		// directed: a token whose posting list spans several LID blocks, ranges that cover only the oldest / newest documents
+		for k, f := range fracs {
+			if f.dense == 0 {
+				continue
+			}
+			n := uint64(f.dense)
+			behind := n // number of documents behind the token's first LID block (LID 1 = newest document)
+			if n > uint64(consts.LIDBlockCap) {
+				behind = n - uint64(consts.LIDBlockCap)
+			}
+			ranges := [][2]uint64{{f.base, f.base + 49}, {f.base, f.base + behind - 1}, {f.base + 10, f.base + 10}, {f.base + behind - 1, f.base + behind + 1},
+				{f.base + n - 100, f.base + n - 1}, {f.base, f.base + n - 1}, {f.base + n/2, f.base + n/2 + 999}}
+			for j, rg := range ranges {
+				doSearch(fmt.Sprintf("d%d.%d.desc", k, j), rg[0], rg[1], pb.Order_ORDER_DESC)
+				doSearch(fmt.Sprintf("d%d.%d.asc", k, j), rg[0], rg[1], pb.Order_ORDER_ASC)
+			}
+		}
 		for q := 0; q < sc.Queries; q++ {
 			var qf, qt uint64
 			for tries := 0; ; tries++ {
@@ -885,45 +989,7 @@ func childMain(path string) {
 			if q%2 == 1 {
 				order = pb.Order_ORDER_ASC
 			}
-			resp, err := st.g.Search(ctx, &pb.SearchRequest{Query: "service:c14", From: int64(qf), To: int64(qt), Size: 100000, WithTotal: true, Order: order})
-			var want []realDoc
-			for _, d := range all {
-				if qf <= d.mid && d.mid <= qt {
-					want = append(want, d)
-				}
-			}
-			got := map[realDoc]bool{}
-			status := "ok"
-			if err != nil {
-				status = "error"
-			} else if resp.Code != pb.SearchErrorCode_NO_ERROR {
-				status = "code"
-			} else {
-				for _, s := range resp.IdSources {
-					got[realDoc{s.Id.Mid, s.Id.Rid}] = true
-				}
-			}
-			var missing, extra []string
-			for _, d := range want {
-				if !got[d] {
-					missing = append(missing, fmt.Sprintf("%d.%d", d.mid, d.rid))
-				}
-				delete(got, d)
-			}
-			for d := range got {
-				extra = append(extra, fmt.Sprintf("%d.%d", d.mid, d.rid))
-			}
-			sort.Strings(extra)
-			// which fractions did FilterInRange keep?
-			kept := ""
-			for _, f := range fracs {
-				if fr, ok := m[f.name]; ok {
-					kept += string(cell(func() bool { return fr.IsIntersecting(seq.MID(qf), seq.MID(qt)) }))
-				} else {
-					kept += "-"
-				}
-			}
-			fmt.Printf("S\t%s\t%d\t%d\t%d\t%s\t%s\twant=%d\tmissing=%s\textra=%s\t[%s,%s]\n", stage, q, qf, qt, status, kept, len(want), vh.JoinStrs(missing, ","), vh.JoinStrs(extra, ","), rel(qf), rel(qt))
+			doSearch(fmt.Sprintf("%d", q), qf, qt, order)
 		}
 		// fetches: a few present documents, optionally with unknown IDs
 		for q := 0; q < sc.Fetches && len(all) > 0; q++ {
@@ -1097,6 +1163,19 @@ func witnessScenario(seed int64) scenario {
 	}}
 }
 
+// a sealed fraction in which the token service:c14 is carried by more documents than one LID block holds
+// (consts.LIDBlockCap): the narrowed scan has to walk into the token's later blocks for ranges over the oldest documents
+func denseScenario(seed int64, thorough bool) scenario {
+	n := consts.LIDBlockCap + 4500
+	if thorough {
+		n = 2*consts.LIDBlockCap + 3000
+	}
+	return scenario{Name: "dense-multi-block", Seed: seed, Queries: 10, Fetches: 4, Fracs: []fracSpec{
+		{Sealed: true, Dense: n, DenseSpread: 1_500_000, Bulks: [][]docSpec{{{Off: -3_000_000}}, {{Off: 5}}}},
+		{Sealed: false, Bulks: [][]docSpec{{{Off: -100}, {Off: -1}}}},
+	}}
+}
+
 func systemOracle(o vh.Opts, rep *vh.Report, scs []scenario) {
 	fi := vh.NewChannel("frac.info", "REAL fractions (FracManager + GrpcV1.Bulk + seal + two restarts): Info().From/To/DocsTotal/Distribution and IsIntersecting on probe pairs vs SV.FracInfo (appendBulk per bulk, sealed = BuildDistribution over the stub and all MIDs); stages live / reloaded (.frac-cache) / reloaded-nocache (index info block); non-trivial = fraction has a distribution")
 	so := vh.NewOracle("prune.search", "real GrpcV1.Search(service:c14, [qf,qt]) over active+sealed fractions, live and after restarts, returns exactly the ingested documents with qf <= MID <= qt (every document of every fraction examined by the harness); non-trivial = some fraction was pruned and some document was in range")
@@ -1131,7 +1210,10 @@ func systemOracle(o vh.Opts, rep *vh.Report, scs []scenario) {
 				cross := qf < two63 && qt >= two63
 				pruned := strings.Contains(f[6], "0")
 				nontriv := pruned && f[7] != "want=0"
-				tags := []string{"stage=" + f[1], "status=" + f[5]}
+				tags := []string{"stage=" + f[1], "status=" + f[5], "order=" + f[14]}
+				if strings.HasPrefix(f[2], "d") {
+					tags = append(tags, "directed-multi-block-token")
+				}
 				if cross {
 					tags = append(tags, "range=crosses-2^63")
 				}
@@ -1148,6 +1230,9 @@ func systemOracle(o vh.Opts, rep *vh.Report, scs []scenario) {
 					site := "fracmanager/searcher.go:prepareFracs"
 					if f[8] == "missing=-" {
 						class = "document-outside-range-returned"
+					} else if f[13] == "kept" {
+						// the fraction survived FilterInRange, the document was lost inside it: narrowing to the LID borders
+						site, class = "frac/processor/search.go:narrowed-scan", "document-in-range-not-returned-by-kept-fraction"
 					} else if cross {
 						class = "range-crosses-int64-boundary"
 					}
@@ -1155,7 +1240,7 @@ func systemOracle(o vh.Opts, rep *vh.Report, scs []scenario) {
 					if !reported[key] {
 						reported[key] = true
 						rep.Violate(vh.Violation{Site: site, Class: class,
-							What:   fmt.Sprintf("scenario %s stage %s query #%s: Search over [qf,qt] kept fractions %s, %d in-range documents not returned, %d foreign (exact ends in the evidence notes)", sc.Name, f[1], f[2], f[6], countIDs(f[8]), countIDs(f[9])),
+							What:   fmt.Sprintf("scenario %s stage %s query #%s order %s: Search over [qf,qt] kept fractions %s, %s in-range documents not returned, %s foreign (exact ends in the evidence notes)", sc.Name, f[1], f[2], f[14], f[6], f[11], f[12]),
 							Replay: []string{replay, "search " + f[1] + " #" + f[2]}})
 						rep.Note("%s/%s search #%s: ends %s (ctK = creation time of fraction K, ms) = [%d,%d] %s %s %s", sc.Name, f[1], f[2], f[10], qf, qt, f[7], f[8], f[9])
 					}
@@ -1249,6 +1334,7 @@ func main() {
 		r := rng.Fork()
 		var scs []scenario
 		scs = append(scs, witnessScenario(int64(r.U64()>>1)))
+		scs = append(scs, denseScenario(int64(r.U64()>>1), o.Thorough()))
 		n := o.Pick(4, 14)
 		for i := 0; i < n; i++ {
 			scs = append(scs, genScenario(r.Fork(), fmt.Sprintf("s%d", i), i%4 == 3, o.Thorough()))
